@@ -201,7 +201,8 @@ AUDIT = {
     'C06': ('Audit extension: per class a second alphabet (second contig at equal coordinates, single-end copies, rejected fragments with '
             'yield_invalid on/off, R2-only fragments, a UMI of another length, rS random-primer tag, CHIC sites at radius and radius+1, NlaIII '
             'with use_allele_tag and DA a/b/absent); stale RC/af/TF tags of an earlier run; af/TF/RC demanded on every record; a deep '
-            'same-site slice (all sequences of 4-5 fragments over 4 UMIs) exercising the moving representative UMI.',
+            'same-site slice (all sequences of 4-5 fragments over 4 UMIs) exercising the moving representative UMI; CHIC radius 0 on reads '
+            'tagged before with radius 2; NlaIII with library_name and cells named run_plate_well.',
             'Truth is the simulator\'s (cell, contig, site, strand, UMI[, allele]); N in a UMI is treated as an uncalled base; mi (written by the '
             'tagger), RC=0 being the non-duplicate fragment and untagged-joins-tagged alleles are not judged.'),
     'C07': ('Audit extension: every option branch of MoleculeIterator under every schedule (yield_invalid, every_fragment_as_molecule, '
@@ -237,7 +238,7 @@ AUDIT = {
     'C12': ('Audit extension: dedup=False, ignore_mp, min_mq None/0, two key tags, skip_contigs (7 forms), head, alt_spans, path lists, explicit '
             'count_function on BAMs with records lacking SM / DS, discordant pairs, MAPQ 255, two-reason records; library pairs sharing unnamed '
             '(bulk) records; get_binned_counts and get_binned_counts_prefixed without a filter function, with regions and aliases; the installed '
-            'script in its own interpreter; read_counts as a complete truth table (144 records x 48 option sets); 1-4 workers with one bin per job.',
+            'script in its own interpreter; read_counts as a complete truth table (144 records x 48 option sets); 1-4 workers with one bin per job; a first library without reads on a contig the second covers.',
             '|DS - read span| <= max_fragment_size; where the property is silent (head below the job count, alt_spans targets, records without '
             'DS, coordinate regions) only "never above / once per cell / invariant under the job split" is demanded.'),
     'C13': ('Audit extension: 28 option sets of get_consensus (dove_safe, min_phred_score at every quality boundary, only_include_refbase, '
@@ -290,7 +291,7 @@ AUDIT = {
             '-skip_contig, --consensus, --no_source_reads), output-path letters, a one-file merge, a modelled samtools; re-runs over the '
             'output of a run on ANOTHER input with old mtimes; the cluster mode under the local scheduler with stand-in tools; a real Pool '
             'with raising / dying workers; every BGZF block of the input damaged, and an impossible record in front of every record of an '
-            'unmapped tail; re-runs whose status file cannot be written, alone and followed by a fault at every later point.',
+            'unmapped tail; re-runs whose status file cannot be written, alone and followed by a fault at every later point; a MemoryError fault kind.',
             'Kills land at Python-level line boundaries and modelled mid-write points; a hung execution is killed after 60 s and judged like '
             'a kill; -head, --no_rejects and --no_source_reads outputs are judged on existence, EOF, order and index only; a read-only '
             'directory is represented by OSError at every file-system call (the checks run as root).'),
